@@ -25,6 +25,9 @@ CLAIMS = {
  "C03": ("driver-l2", "§6 C03", "As C02 for QER, URR and BAR (40-bit rates split high32/low8, trigger words, every non-empty threshold/quota flag subset, 64-bit volumes); the periodic registration is observed as the OIDs of the GET_MULTI_REPORTS issued on an injected tick after Create URR and after Remove URR, judged against a ghost registration set."),
  "C13": ("fullstack-l2", "§6 C13", "MonL2.tla: ghost FIFO per (session, PDR) built from the BUFFER notifications the simulated kernel emitted; bounded capacity (newest dropped), downlink-data notification iff NOCP, on Update FAR with a new apply action exactly the queued packets of the FAR's PDRs in order, once, to the FAR's peer / TEID / first non-zero QFI (parsed by an independent G-PDU reader at simulated gNB sockets), nothing on DROP, nothing after session end or SEID re-use; queue lengths compared with the loop-owned snapshot. TLC checks the ideal full-stack model (UpfL2.tla, capacity 2) against the monitor exhaustively, its edges (one model packet = 256 real packets) and seeded random histories with bursts up to 600 packets run on the REAL PfcpServer + gtp5g driver + buffering listener + nl.Mux over the simulated kernel; TLC validates the recorded traces with capacity 512."),
  "C15": ("fullstack-l2", "§6 C15", "MonL2.tla: ghost registration set from Create/Remove URR and session ends; an injected tick must query exactly the registered (SEID, URR) pairs as a bag over all GET_MULTI_REPORTS batches seen by the simulated kernel, deliver one session report per session with each URR once and flagged PERIO; number of ticker goroutines = number of periods with registrations; after Stop no ticker is left. Ideal model checked exhaustively by TLC, edges and seeded random histories executed on the real stack, traces validated by TLC."),
+ "C07": ("fullstack-l2", "§6 C07", "Trace_Alive.tla: after any sequence of structure-aware mutations (14 operators over header fields, IE lengths at every nesting level, truncation at IE boundaries, dropped / duplicated IEs, flag octets, inner length fields, SEIDs at boundary values, unknown types, raw bytes) of valid messages, delivered after valid prefixes that TLC generates from the life-cycle model (every edge = a state x position), the UPF has not faulted, answers a Heartbeat Request, and a session that no offending datagram addressed (by header SEID or node id) still accepts a request. Run with the model data plane (L1) and with the real gtp5g driver decoding the IEs over the simulated kernel (L2); a dead or hung process is a violation."),
+ "C17": ("fullstack-l2", "§6 C17", "UpfConc.tla: goroutines and bounded channels as processes; TLC checks exactly-once consumption of report notifications and absence of a send on a closed channel for every schedule of the bounded model incl. Stop anywhere. The real stack is then stressed under the Go race detector (2-4 SMFs with random valid histories and duplicates, 2-8 report producers, millisecond transaction timers, ticks, Stop at a random moment): no race report, no fault, every notification yields exactly one downlink data report at the SMF, all goroutines gone after Stop."),
+ "C18": ("fullstack-l2", "§6 C18", "UpfConc.tla decides for each scenario of a grid (sessions x URRs per session x bulk removal kind x notification burst x netlink latency, scaled to model capacities) whether a state is reachable in which nobody can move although work is left; the real stack runs every scenario with the real capacities (512 / 128) and must answer a Heartbeat Request afterwards. A wedge where the specification admits none, or with an unlisted blocked cycle, is a violation; the two wedges the specification predicts are recorded as known findings (goroutine dump must show the predicted cycle)."),
 }
 L0_NOTE = ("Trusted: TLC 1.8 + CommunityModules Json; the hand transcription of the standards' tables / the statement into the reference module "
            "(its internal consistency is model-checked); the harness's rendering of abstract vectors into concrete inputs.")
